@@ -100,6 +100,8 @@ func c05Install() {
 	})
 }
 
+var c05ChanCap = 100 // capacity of a reader's lines channel (100 in readcommand.go)
+
 var c05Holder = mapr.NewGroupSet() // the (empty) group set whose merge is parked to hold the lock
 
 func c05Wait(cond func() bool) bool {
@@ -170,7 +172,7 @@ func c05Server(query string, parts [][]string, header string) (msgs [][]string, 
 	out := make(chan string, 1000)
 	done := make(chan struct{})
 	go func() { a.Start(ctx, out); close(done) }()
-	ch := make(chan *line.Line, 100)
+	ch := make(chan *line.Line, c05ChanCap)
 	a.NextLinesCh <- ch
 	fed := 0
 	feed := func(s string) {
@@ -348,4 +350,59 @@ func TestC05Replay(t *testing.T) {
 	wg.Wait()
 	_ = math.Abs
 	vWriteJSON(t, "VERIF_OUT", results)
+}
+
+// Magnitudes: one group whose partial count/sum crosses 10^6 within a single serialisation interval (the partial result
+// then travels in exponent notation), next to small groups.  The central values follow from the definition of
+// count/sum/min/max/avg over the lines fed; the driver computes them.
+func TestC05Magnitude(t *testing.T) {
+	vInit("none")
+	c05Install()
+	n := 1000005
+	fmt.Sscanf(os.Getenv("VERIF_N"), "%d", &n)
+	dir, _ := os.MkdirTemp("", "c05m-")
+	defer os.RemoveAll(dir)
+	outfile := filepath.Join(dir, "big.csv")
+	qs := "select g,count($line),sum(v),min(v),max(v),avg(v) group by g interval 3600 logformat generickv outfile \"" + outfile + "\""
+	query, err := mapr.NewQuery(qs)
+	if err != nil {
+		t.Fatal(err)
+	}
+	// a reader is faster than the aggregator and keeps its channel filled; the harness feeds from one goroutine, so it
+	// gets a deeper channel instead (an aggregator that finds its channel empty sleeps 100 ms)
+	c05ChanCap = 16384
+	defer func() { c05ChanCap = 100 }()
+	big := make([]string, 0, n)
+	for i := 0; i < n; i++ {
+		big = append(big, "g=a|v=1")
+	}
+	m1, p := c05Server(qs, [][]string{big, {"g=a|v=3", "g=b|v=2", "g=c|v=999999"}}, "")
+	if p != "" {
+		t.Fatal(p)
+	}
+	m2, p := c05Server(qs, [][]string{{"g=a|v=5", "g=c|v=1", "g=c|v=1000000"}}, "")
+	if p != "" {
+		t.Fatal(p)
+	}
+	global := mapr.NewGlobalGroupSet()
+	c1 := client.NewAggregate("server1", query, global)
+	c2 := client.NewAggregate("server2", query, global)
+	for _, m := range m1[0] {
+		c1.Aggregate(m)
+	}
+	for _, m := range m2[0] {
+		c2.Aggregate(m)
+	}
+	for _, m := range m1[1] {
+		c1.Aggregate(m)
+	}
+	if err := global.WriteResult(query, true); err != nil {
+		t.Fatal(err)
+	}
+	data, _ := os.ReadFile(outfile)
+	var rows [][]string
+	for _, l := range strings.Split(strings.TrimRight(string(data), "\n"), "\n")[1:] {
+		rows = append(rows, strings.Split(l, ","))
+	}
+	vWriteJSON(t, "VERIF_OUT", map[string]interface{}{"n": n, "rows": rows, "wire": append(append([]string{}, m1[0]...), m2[0]...)})
 }
